@@ -79,6 +79,12 @@ def classify(r):
         return []
     if not same("nocache", "fresh"):
         # same stages, cache cleared before every request, still differs from a fresh pipeline
+        if r["kind"] == "E" and same("cached", "nocache"):
+            a, b = r["nocache"], r["fresh"]
+            if a.startswith("err:") and b.startswith("err:") and a.split("@")[0] == b.split("@")[0] and r["out_nocache"] == r["out_fresh"]:
+                return ["vm-reuse:error-reported-against-another-source"]
+            if "late-global" in r.get("feats", "") or "kf4-vm-reuse" in r.get("origin", ""):
+                return ["vm-reuse:global-of-an-earlier-run-visible:late-global"]
         return ["uncached-twin-differs-from-fresh:%s:%s-vs-%s" % (r["kind"], r["nocache"].split(":")[0], r["fresh"].split(":")[0])]
     # the cache is the cause
     if not same("nocomp", "fresh"):
@@ -132,6 +138,8 @@ def run_hist(ctx, exe, files, n, prof, stats):
             if r["prior"] > 0:
                 stats["served_from_cache"] += 1
                 stats["distinct"].add((h["pipeline"], h["opt"], h["sources"][r["src"]], r["kind"], min(r["prior_exec"], 1)))
+            r["feats"] = h["feats"][r["src"]] if r["src"] < len(h["feats"]) else ""
+            r["origin"] = h["origin"]
             sigs = classify(r)
             if not sigs:
                 stats["agree"] += 1
